@@ -267,7 +267,9 @@ def get_source_info_str(source, ignore_encoding=True):
     is_free = False
     while line_tally > 0 and lines:
         line = lines.pop(0).rstrip()
-        if line and line[0] != "!":
+        # Comment lines and preprocessor directives say nothing about the
+        # form of the Fortran source.
+        if line and line[0] not in "!#":
             line_tally -= 1
             if line[0] != "\t" and _FREE_FORMAT_START(line[:5]) or line[-1:] == "&":
                 is_free = True
